@@ -153,3 +153,38 @@ impl Drop for Storm {
         }
     }
 }
+
+
+/// A foreign tracer holding one thread of a target in its attach stop (a separate process, as
+/// `strace -p <tid>` would be): nobody else can attach to that thread until this is dropped.
+pub struct Holder {
+    child: std::process::Child,
+}
+
+impl Holder {
+    pub fn hold(tid: i32) -> Result<Holder, String> {
+        use std::io::BufRead;
+        let mut child = std::process::Command::new(crate::target::target_bin())
+            .arg("hold")
+            .arg(tid.to_string())
+            .stdin(std::process::Stdio::piped())
+            .stdout(std::process::Stdio::piped())
+            .spawn()
+            .map_err(|e| e.to_string())?;
+        let mut line = String::new();
+        let _ = std::io::BufReader::new(child.stdout.take().unwrap()).read_line(&mut line);
+        if line.trim() != "held" {
+            let _ = child.kill();
+            let _ = child.wait();
+            return Err(format!("foreign tracer could not attach: {}", line.trim()));
+        }
+        Ok(Holder { child })
+    }
+}
+
+impl Drop for Holder {
+    fn drop(&mut self) {
+        drop(self.child.stdin.take());
+        let _ = self.child.wait();
+    }
+}
